@@ -492,7 +492,11 @@ func codecEndToEnd(e *Env, hostile [][]byte, rng *rand.Rand) {
 		cl.SetBehaviour(dir.Behaviour)
 		for code := 1; code <= 16; code++ {
 			// error with text, success, error with empty text, success: every reply must carry exactly its own status
-			for step, msg := range []string{fmt.Sprintf("handler says nö ☃ %d", code), "<ok>", "", "<ok>"} {
+			// (texts that look like an encoding of something else - percent escapes, plus signs, backslash escapes, HTML entities,
+			// base64, a leading/trailing blank, a kilobyte and 64 KiB of text - must arrive as they were written)
+			tricky := []string{`invalid path "/files/a%2Fb"`, "100%25 done", "%zz % %", "a+b c%20d", `C:\new\temp \x41 \u00e9`, "&amp;<b>&#65;", "aGVsbG8=", " padded ", "tab\there\r\n", strings.Repeat("k", 1500), strings.Repeat("long ☃ ", 8000), "%", "%%", "%e2%98%83"}
+			msgs := []string{fmt.Sprintf("handler says nö ☃ %d", code), "<ok>", "", "<ok>", tricky[code%len(tricky)], tricky[(code+5)%len(tricky)], "<ok>"}
+			for step, msg := range msgs {
 				tok := h.NewToken()
 				pl := &Plan{Act: ActError, Code: codes.Code(code), Msg: msg}
 				if msg == "<ok>" {
